@@ -1,10 +1,10 @@
 (* Property C13 — theorems that hold for the model regenerated from the CURRENT source,
    whatever the state of finding F1.  Only statements closed by `exact`, each followed by
-   Print Assumptions.  The exit-status theorems live in PropertiesExit.v (positive, must build
-   once count_stats is position-aware) and PropertiesExitRefuted.v (builds on the substring
-   version): the harness decides which one applies from what T regenerated. *)
+   Print Assumptions.  The exit-status theorems live in coq/gen/ErrorsExit.v, which t13 copies from
+   coq/C13/alt/ExitTruth.v.txt (count_stats position-aware) or alt/ExitRefuted.v.txt (substring). *)
 From Coq Require Import ZArith List String Bool.
-From C13 Require Import Types Model Proofs ProofsUnused ProofsDisable.
+From Coq Require Import Permutation.
+From C13 Require Import Types Model Proofs ProofsUnused ProofsDisable ProofsExit ProofsOutput.
 From Gen Require Import ErrorsCore.
 Import ListNotations.
 Open Scope list_scope.
@@ -75,17 +75,59 @@ Theorem disable_code_refuted_before_registration :
     code_disabled (disable_code c x) i = true /\ In i (out (run (disable_code c x) [i])).
 Proof.
   exists (mk_cfg [] false false [] [] [] []), "misc"%string,
-         (mk_info 0 1 0 [1] (Some misc) true false false "Can not invert non-boolean key always_true" None "").
+         (info0 0 1 0 [1] (Some misc) true false false "Can not invert non-boolean key always_true" None "").
   vm_compute. repeat split; auto.
 Qed.
 Print Assumptions disable_code_refuted_before_registration.
 
+(* ---- between error_info_map and the printed list --------------------------------------------- *)
+(* the full machine (many-errors limiter on) differs from `run` only by `hidden` flags and the single
+   "(Skipping most remaining errors ...)" note: every exactness theorem above transfers modulo those *)
+Theorem limiter_erasure : forall c L seen0 E, no_skip E ->
+  erase (out (lcore (run_lim c L seen0 E))) = map unhide (out (run c E)) /\
+  used (lcore (run_lim c L seen0 E)) = used (run c E).
+Proof. exact limiter_erasure_proof. Qed.
+Print Assumptions limiter_erasure.
+
+(* hiding never hides everything: a hidden info implies a non-hidden import diagnostic in the same map *)
+Theorem hidden_needs_visible_import : forall c L E i, fresh E ->
+  In i (out (lcore (run_lim c L false E))) -> ihidden i = true ->
+  exists j, In j (out (lcore (run_lim c L false E))) /\ is_import_code j = true /\ ihidden j = false.
+Proof. exact hidden_needs_visible_import_proof. Qed.
+Print Assumptions hidden_needs_visible_import.
+
+(* so (import diagnostics being errors) a run that collected an error has a NON-hidden error *)
+Theorem limiter_keeps_failure : forall c L E, fresh E -> import_infos_are_errors E ->
+  (exists i, In i (out (lcore (run_lim c L false E))) /\ ierror i = true) ->
+  visible_error (out (lcore (run_lim c L false E))).
+Proof. exact limiter_keeps_failure_proof. Qed.
+Print Assumptions limiter_keeps_failure.
+
+Theorem sort_messages_permutes : forall l, Permutation (sort_messages l) l.
+Proof. exact sort_messages_perm. Qed.
+Print Assumptions sort_messages_permutes.
+
+(* file_messages (drop hidden, sort, remove duplicates) invents nothing, and every non-hidden parent-less info
+   (all errors are parent-less) is printed unless an info with the same line, severity and message is *)
+Theorem final_list_exact : forall o,
+  (forall e, In e (final_infos o) -> In e o /\ ihidden e = false) /\
+  (forall e, In e o -> ihidden e = false -> iparent e = None ->
+     exists e', In e' (final_infos o) /\ key_of e' = key_of e).
+Proof. intros o. split; [exact (final_incl o) | exact (final_keeps o)]. Qed.
+Print Assumptions final_list_exact.
+
+(* hence the printed list contains an error-severity line iff the map has a non-hidden error *)
+Theorem printed_error_iff : forall srcloc hc snc o, errors_have_no_parent o ->
+  (has_error (printed srcloc hc snc o) <-> visible_error o).
+Proof. exact printed_has_error_iff. Qed.
+Print Assumptions printed_error_iff.
+
 (* hypotheses are satisfiable, on non-trivial streams *)
 Definition ex_c : cfg := mk_cfg [(7, ["misc"%string])] true false [] [] [] [].
-Definition ex_e1 := mk_info 0 3 0 [3] (Some (mk_ecode "arg-type" None true None)) true false false "bad arg" None "m".
-Definition ex_e2 := mk_info 1 4 0 [2; 3; 4] (Some (mk_ecode "override" None true None)) true false false "bad override" None "m".
-Definition ex_e3 := mk_info 2 3 0 [3] None true true false "syntax" None "m".
-Definition ex_e4 := mk_info 3 7 0 [7] (Some (mk_ecode "method-assign" (Some "assignment"%string) true None)) true false false "assign" None "m".
+Definition ex_e1 := info0 0 3 0 [3] (Some (mk_ecode "arg-type" None true None)) true false false "bad arg" None "m".
+Definition ex_e2 := info0 1 4 0 [2; 3; 4] (Some (mk_ecode "override" None true None)) true false false "bad override" None "m".
+Definition ex_e3 := info0 2 3 0 [3] None true true false "syntax" None "m".
+Definition ex_e4 := info0 3 7 0 [7] (Some (mk_ecode "method-assign" (Some "assignment"%string) true None)) true false false "assign" None "m".
 
 Example ex_delta :
   has_ignores ex_c = true /\ dict_has (ignores ex_c) 3 = false /\ no_once [ex_e1; ex_e2; ex_e3; ex_e4] = true /\
@@ -110,3 +152,15 @@ Example ex_disable :
   out (run (disable_code ex_c "assignment") [ex_e1; ex_e4]) = [ex_e1] /\
   carries ex_c "assignment" ex_e4 = true.
 Proof. vm_compute. repeat split; reflexivity. Qed.
+
+Definition ex_imp := info0 0 1 0 [1] (Some (mk_ecode "import-not-found" (Some "import"%string) true None)) true false false "no module" None "m".
+Example ex_limiter :
+  let L := mk_lim 1 0 0 in
+  fresh [ex_imp; ex_e1; ex_e2] /\ no_skip [ex_imp; ex_e1; ex_e2] /\ import_infos_are_errors [ex_imp; ex_e1; ex_e2] /\
+  (* threshold 1: everything after the import error is hidden, preceded once by the "(Skipping ...)" note *)
+  map ihidden (out (lcore (run_lim ex_c L false [ex_imp; ex_e1; ex_e2]))) = [false; false; true; true] /\
+  map iid (final_infos (out (lcore (run_lim ex_c L false [ex_imp; ex_e1; ex_e2])))) = [0; -1].
+Proof.
+  split; [|split; [|split; [|split]]]; try (vm_compute; reflexivity);
+    intros i [<-|[<-|[<-|[]]]]; vm_compute; auto; discriminate.
+Qed.
